@@ -103,6 +103,13 @@ def gen_case(rng, sim, nmax=8):
     if sim == "discrete_SIR":
         c["contacts"] = [[u, v] for u, v in edges_dir if rng.random() < 0.6]
         c["recsteps"] = [rng.randint(1, 3) for _ in range(n)] if rng.random() < 0.3 else None
+        # a stateful user rule: the outcome of u->v depends on how many times it has been asked (only observable when
+        # a recovery rule keeps u infectious for several steps).  [u, v, [1st ask, 2nd ask, ...]] (last entry repeats)
+        c["sched"] = []
+        if c["recsteps"] is not None and rng.random() < 0.6:
+            for u, v in edges_dir:
+                if rng.random() < 0.4:
+                    c["sched"].append([u, v, [rng.random() < 0.4 for _ in range(rng.randint(2, 3))]])
     if sim in ("basic_discrete_SIR", "basic_discrete_SIS", "percolation_based_discrete_SIR"):
         c["p"] = str(rng.choice([F(0), F(1, 4), F(1, 2), F(3, 4), F(1)]))
         c["positional"] = rng.random() < 0.3
@@ -148,7 +155,13 @@ class Rules:
 
     # --- discrete
     def test_transmission(self, u, v):
-        return [self.li[u], self.li[v]] in self.c["contacts"]
+        a, b = self.li[u], self.li[v]
+        for x, y, bs in self.c.get("sched") or []:
+            if (x, y) == (a, b):
+                k = self.count.get(("t", a, b), 0)
+                self.count[("t", a, b)] = k + 1
+                return bs[min(k, len(bs) - 1)]
+        return [a, b] in self.c["contacts"]
 
     def test_recovery(self, u):
         k = self.count.get(("r", self.li[u]), 0) + 1
